@@ -179,11 +179,10 @@ def __str_to_derivable_program__(
     primitives: TList[DerivableProgram] = [
         P for P in all_primitives if P.primitive in allowed
     ]
-    svar = sorted(variables, key=lambda x: x.variable)
     for el in allowed:
         if el.startswith("var"):
             varno = int(el[3:])
-            primitives.append(svar[varno])
+            primitives += [v for v in variables if v.variable == varno]
     return primitives
 
 
